@@ -347,6 +347,10 @@ def _universe(case):
             u += [p[1] for v in g['assign'].values() for p in v]
         else:
             u += [x for p in PATHS for x in p]
+            for key in ('omd', 'smd'):
+                for m in case['spec'][key] or []:
+                    for pw in ((m or {}).get(g['key']) or []):
+                        u += [x for x in pw if isinstance(x, str)]
     elif case['f']['kind'] in ('idmap', 'badmap'):
         u += [k for k, _ in case['f']['map']]
     elif case['f']['kind'] == 'grpmap':
